@@ -52,6 +52,7 @@ RULES = {
     "R13": "std associated constant read through a prelude wrapper whose body is exactly that constant (`f64::NEG_INFINITY` -> `w_f64_neg_infinity()`)",
     "R15": "closure parameter pattern moved into a let-binding: `|(a, b)| e` -> `|p| { let (a, b) = p; e }` (Verus accepts only variable parameters; the replacement text may carry the closure's ghost contract)",
     "R16": "`if c { continue; } rest` at the top level of a for-loop body written as `if c { } else { rest }` (Verus for-loops do not support `continue`)",
+    "R17": "`&HashSet | &HashSet` / `&HashSet & &HashSet` (std operator impls whose signature cannot be named in an assume_specification) redirected to prelude wrappers whose bodies are exactly those operator expressions",
     "R11": "`const X: T = e;` written in Verus's exec-const form `exec const X: T ensures .. { e }` (same initializer expression)",
 }
 
